@@ -187,3 +187,104 @@ func SameBacking[T any](a, b []T) bool {
 	fa, fb := a[:cap(a)], b[:cap(b)]
 	return &fa[len(fa)-1] == &fb[len(fb)-1]
 }
+
+// ---- tiers ----
+
+var thorough bool
+
+// Thorough reports whether the thorough tier is running (concrete in the engine).
+func Thorough() bool { return thorough }
+
+// ---- native replay driver ----
+
+type Case struct {
+	Harness  string `json:"harness"`
+	Vector   []Item `json:"vector"`
+	Thorough bool   `json:"thorough"`
+	Repeat   int    `json:"repeat"`
+	ID       string `json:"id"`
+}
+
+type Outcome struct {
+	ID         string   `json:"id"`
+	Harness    string   `json:"harness"`
+	Failed     []string `json:"failed"`
+	Panic      string   `json:"panic"`
+	Infeasible bool     `json:"infeasible"`
+	Observed   []string `json:"observed"`
+	Reached    []string `json:"reached"`
+	Runs       int      `json:"runs"`
+	Missing    bool     `json:"missing"`
+}
+
+func runOne(h func(), c Case) (o Outcome) {
+	o.ID, o.Harness = c.ID, c.Harness
+	Load(c.Vector)
+	thorough = c.Thorough
+	ContinueOnFail = false
+	defer func() {
+		o.Observed, o.Reached, o.Failed = Observed, Reached, Failed
+		if r := recover(); r != nil {
+			switch x := r.(type) {
+			case Violation:
+			case Infeasible:
+				o.Infeasible = true
+			case error:
+				o.Panic = x.Error()
+				if o.Panic == "" {
+					o.Panic = "error"
+				}
+			default:
+				o.Panic = fmt.Sprint(x)
+				if o.Panic == "" {
+					o.Panic = "panic"
+				}
+			}
+		}
+	}()
+	h()
+	return
+}
+
+// ReplayMain runs the cases in $VERIF_REPLAY_IN and writes outcomes to $VERIF_REPLAY_OUT.
+func ReplayMain(harnesses map[string]func()) error {
+	in, out := os.Getenv("VERIF_REPLAY_IN"), os.Getenv("VERIF_REPLAY_OUT")
+	if in == "" {
+		return nil
+	}
+	b, err := os.ReadFile(in)
+	if err != nil {
+		return err
+	}
+	var cases []Case
+	if err := json.Unmarshal(b, &cases); err != nil {
+		return err
+	}
+	var outs []Outcome
+	for _, c := range cases {
+		h, ok := harnesses[c.Harness]
+		if !ok {
+			outs = append(outs, Outcome{ID: c.ID, Harness: c.Harness, Missing: true})
+			continue
+		}
+		n := c.Repeat
+		if n < 1 {
+			n = 1
+		}
+		var o Outcome
+		for i := 0; i < n; i++ {
+			o = runOne(h, c)
+			o.Runs = i + 1
+			if len(o.Failed) > 0 || o.Panic != "" {
+				break
+			}
+		}
+		outs = append(outs, o)
+	}
+	ob, _ := json.MarshalIndent(outs, "", " ")
+	if out == "" {
+		fmt.Println(string(ob))
+		return nil
+	}
+	return os.WriteFile(out, ob, 0644)
+}
